@@ -267,8 +267,8 @@ fn backend(listener: TcpListener, scn: Scn, until: Instant) {
                 let _ = s.write_all(full_cl.as_bytes());
                 held.push(s);
             }
-            "continue100" | "expect100" | "hints103" => {
-                let interim = if scn.kind == "hints103" { "HTTP/1.1 103 Early Hints\r\nLink: </s.css>; rel=preload\r\n\r\n" } else { "HTTP/1.1 100 Continue\r\n\r\n" };
+            "continue100" | "expect100" | "hints103" | "processing102" => {
+                let interim = if scn.kind == "processing102" { "HTTP/1.1 102 Processing\r\n\r\n" } else if scn.kind == "hints103" { "HTTP/1.1 103 Early Hints\r\nLink: </s.css>; rel=preload\r\n\r\n" } else { "HTTP/1.1 100 Continue\r\n\r\n" };
                 let _ = s.write_all(interim.as_bytes());
                 let _ = s.flush();
                 // then the whole request body, then the final answer
@@ -486,7 +486,7 @@ fn client(front: SocketAddr, scn: Scn) -> Vec<Resp> {
                 out.push(read_response(&mut s, &mut acc, true));
             }
         }
-        "early_response" | "continue100" | "hints103" | "expect100" | "continue_then_close" => {
+        "early_response" | "continue100" | "hints103" | "expect100" | "continue_then_close" | "processing102" => {
             // a request with a 64-byte body sent in two halves; the backend answers after the head
             // (early_response), or sends an interim 100 / 103 first
             let expect = if scn.kind == "expect100" { "Expect: 100-continue\r\n" } else { "" };
